@@ -186,7 +186,7 @@ class TransformedTargetForecaster(
                 yt = transformer.transform(yt)
 
         name, forecaster = self.steps_[-1]
-        forecaster.update(yt, update_params=update_params)
+        forecaster.update(yt, X, update_params=update_params)
         self.steps_[-1] = (name, forecaster)
         return self
 
